@@ -547,7 +547,13 @@ def _conj(a):
     if a.dtype != "cx":
         return a.snapshot()
     snap = a.snapshot()
-    return lam_array(a.shape, "cx", lambda xs: Cx(snap.get(xs).re, arith("-", 0, snap.get(xs).im)))
+    r = lam_array(a.shape, "cx", lambda xs: Cx(snap.get(xs).re, arith("-", 0, snap.get(xs).im)))
+    d = getattr(a, "diag_of", None)
+    if d is not None and a.rank == 2 and a.base is None and a.re is not None and a.re.eq(d[0]):
+        # the conjugate of a diagonal matrix is the diagonal matrix of the conjugated entries
+        f = d[1]
+        r.diag_of = (r.re, lambda i: _conj(f(i)))
+    return r
 
 
 def _real_part(a):
@@ -820,6 +826,9 @@ def _install(M):
 
     @reg("enumerate")
     def _enumerate(ex, a, k, l):
+        if (isinstance(a[0], SymArr) and is_z3(a[0].shape[0])) or (isinstance(a[0], SymList) and is_z3(a[0].length)):
+            from .loops import Enumerated
+            return Enumerated(a[0])
         items = ex.iterate_concrete(a[0], l)
         return [(i, x) for i, x in enumerate(items)]
 
@@ -1246,7 +1255,12 @@ def _install(M):
 
     def _exp(x):
         if isinstance(x, Cx):
-            if not is_z3(x.re) and x.re == 0:
+            re0 = x.re
+            if is_z3(re0):
+                sre = z3.simplify(re0)
+                if z3.is_rational_value(sre) and sre.numerator_as_long() == 0:
+                    re0 = 0
+            if not is_z3(re0) and re0 == 0:
                 return Cx(V.ufun("cos", x.im), V.ufun("sin", x.im))
             e = V.ufun("exp", x.re)
             return Cx(arith("*", e, V.ufun("cos", x.im)), arith("*", e, V.ufun("sin", x.im)))
